@@ -122,10 +122,10 @@ Exact(a, e) == [len |-> OffSigned + SignedFixed + CertFixed + a + PckFixed + Cha
 \* deviations of one field from its exact value
 Devs(field, x, f) ==
   CASE field = "version"  -> {3, 5, 260}
-    [] field = "keyType"  -> {3, 0}
-    [] field = "teeType"  -> {0, 128}
-    [] field = "certType" -> {5, 0, 7}
-    [] field = "pckType"  -> {6, 0, 4}
+    [] field = "keyType"  -> {3, 0, 258}                       \* 258 = 0x0102, 260 = 0x0104, ...: the right value in the low byte only
+    [] field = "teeType"  -> {0, 128, 33153, 65665, 16777345}  \* 0x8181, 0x00010081, 0x01000081: the right value in the low byte(s) only
+    [] field = "certType" -> {5, 0, 7, 262}
+    [] field = "pckType"  -> {6, 0, 4, 261}
     [] field = "sd"       -> {0, 63, 64, 127, 128, 133, 134, x - 1, x + 1, f.len - OffSigned, f.len - OffSigned + 1, Huge} \ {x}
     [] field = "certSize" -> {0, 449, 450, x - 1, x + 1, Huge} \ {x}
     [] field = "auth"     -> {0, x + 1, x + ChainLen + 1, x + ChainLen + PckFixed, x + ChainLen + PckFixed + 1, 65535} \ {x}
